@@ -1,3 +1,18 @@
+def _non_vacuous(chk):
+    """The property is an 'only if': the oracle would pass vacuously if no carbon were ever unwrapped or no foreign wrapper ever
+    offered.  Require, per generation, accepted own-bare carbons AND rejected foreign wrappers in the sender-rule battery."""
+    st = chk.cov.get("stats", {}).get("carbons", {})
+    missing = [k for k in ("battery_v2_own-bare_unwrapped", "battery_v1_own-bare_unwrapped", "battery_v2_own-full_kept_closed",
+                           "battery_v1_own-full_kept_closed", "battery_v2_case-node_kept_closed", "battery_v1_case-node_kept_closed",
+                           "oracle_v2_foreign_wrappers_kept_closed", "oracle_v1_foreign_wrappers_kept_closed",
+                           "oracle_v2_sender_rule_evaluations", "oracle_v1_sender_rule_evaluations") if not st.get(k)]
+    if missing and st:
+        chk.broken.append({"what": "C11 oracle would be vacuous: the harness no longer observes " + ", ".join(missing), "detail": ""})
+    lost = [k for k in ("sentinel_v2_from_is_outer_attribute", "sentinel_v2_compares_with_jidBare", "sentinel_v1_compares_with_jidBare") if st and not st.get(k)]
+    if lost:
+        chk.log("note: textual sentinel lost (advisory; the sender rule itself is enforced dynamically by the oracle):", ", ".join(lost))
+
+
 SPEC = dict(
     id="C11",
     title="Carbon copies are trusted only when they come from the user's own account",
@@ -6,6 +21,7 @@ SPEC = dict(
     drivers=["qxdriver_c11"],
     harnesses=[dict(name="carbons", asan=False, driver="qxdriver_c11")],
     exhaustive=False,
+    extra=[_non_vacuous],
     rule="one line per injected stanza: a real QXmppClient with QXmppCarbonManagerV2 (or, separately, the V1 QXmppCarbonManager) "
          "and a pass-through message handler installed receives the stanza through QXmppOutgoingClient::handlePacketReceived "
          "(XML wrapped in <stream:stream> and parsed by QDomDocument with namespace processing, like XmppSocket::processData); "
@@ -22,8 +38,10 @@ SPEC = dict(
          "look-alike, from A's full JID, without from; plain message} for both generations, plus 120 / 1200 random clients with "
          "~12% switches among 7 accounts and senders drawn from current, former and look-alike own JIDs; oracle and model judge "
          "every stanza against the configuration current at that moment. A client's sequence is non-trivial when it yields >= 2 "
-         "distinct observations. Independent oracle: flagged/carbon-channel message => outer from == own bare JID and content == "
-         "an inner message at the sent|received/forwarded/message path; unflagged message => it is the outer stanza.",
+         "distinct observations. Outer and inner type over {chat, normal, groupchat, headline, error, absent, empty, unknown, wrong case}; "
+         "inner payload extras (subject, thread, private, receipt request, hint, unknown extension), forwarded-in-forwarded, carbon in "
+         "MAM result and MAM result in carbon, inner from = attacker; a sender-rule battery (16 named senders x 9 types x sent/received "
+         "x both generations) whose accepted/rejected counts the check requires to be non-zero. Independent enforced oracle: see level_text.",
     trusted_base=[
         "Lean 4.33.0 kernel; axioms per theorem listed under coverage.theorems (subset of propext, Classical.choice, Quot.sound)",
         "hand-written model lean/Qx/Model/C11Carbons.lean, tied to src/client/QXmppCarbonManagerV2.cpp, QXmppCarbonManager.cpp, "
@@ -40,15 +58,28 @@ SPEC = dict(
         "the server stamps the outer from of relayed stanzas (XMPP core); the property is about what the client does with that attribute",
         "outer <body/> children are text-only in generated stanzas; E2EE-decrypted stanzas (handleStanza with e2ee metadata) are not driven",
     ],
-    level_text="Theorems for all strings and all child lists, both manager generations: unwrapped iff outer from == configured bare JID "
-               "and the wrapper lookup reaches the message (carbon_unwrapped_iff_v1/v2); any other sender is never unwrapped "
-               "(foreign_sender_never_unwrapped, prefix/suffix corollaries); the presented message is exactly the inner "
-               "message@jabber:client inside forwarded inside sent|received, flagged (carbon_presented_is_inner_v1/v2); a rejected wrapper "
-               "is processed as the outer stanza with the outer from (rejected_is_ordinary, foreign_sender_is_ordinary); per stanza and "
-               "over arbitrary histories of reconfigurations and stanzas every surfaced message is the outer one or an own-account "
-               "carbon (presented_is_outer_or_own_carbon, history_*). Model tied to the real client by systematic + random correspondence.",
-    level_note="Proved about the hand-written model of the decision and dispatch; model-to-code tie is differential (systematic product "
-               "of sender variants and wrapper arrangements, sampled beyond). QDom/QXmppMessage::parse taken as exercised, not proved.",
+    level_text="PROVED (Lean, all strings, all child lists, both manager generations): a wrapper is unwrapped iff the outer from is "
+               "string-equal — exact, case-sensitive, no JID normalisation — to the configured bare JID and the wrapper lookup reaches a "
+               "message (carbon_unwrapped_iff_v1/v2); every other sender (own full JIDs, case variants, look-alikes, prefix/suffix "
+               "extensions, empty/absent unless the own JID is unset) is never unwrapped (foreign_sender_never_unwrapped + corollaries, "
+               "empty_sender_unwrapped_only_if_unconfigured); the presented message has id/from/to/body/type of the inner "
+               "message@jabber:client inside forwarded@urn:xmpp:forward:0 inside sent|received@urn:xmpp:carbons:2 of that stanza and the "
+               "forwarded flag (carbon_presented_is_inner_v1/v2); a rejected wrapper is DELIVERED, not dropped: the stanza is not consumed "
+               "and reaches message handlers and QXmppClient::messageReceived exactly once as the outer stanza (outer from/id/to/type, "
+               "outer's own last body, flag unset), the wrapper staying an uninterpreted extension (rejected_is_ordinary, "
+               "foreign_sender_is_ordinary); per stanza and over arbitrary histories with account switches every surfaced message is "
+               "the outer one or an own-account carbon (presented_is_outer_or_own_carbon, flag_iff_unwrapped, "
+               "consumed_presents_only_the_inner, history_*). ENFORCED ON THE REAL CODE (oracle, model-independent, every stanza, both "
+               "QXmppCarbonManagerV2 and QXmppCarbonManager with its messageSent/messageReceived signals): flagged or carbon-signal "
+               "message => DOM outer from == jidBare() current at that moment; the delivered message serialised by toXml equals, as a "
+               "canonical tree (attributes, type, body/subject/thread, every other child incl. private/receipt/hint/unknown extension "
+               "and nested forwarded/carbon/MAM payloads) one wrapped inner element of the right direction, and equals byte-for-byte "
+               "toXml(parse(that element)); unflagged message => equals toXml(parse(outer stanza)) and the outer element (fields + set of "
+               "child tags).",
+    level_note="Theorems are about the hand-written model of decision and dispatch (fields id/from/to/body/type/flag); equality on all "
+               "other QXmppMessage fields is oracle-checked on the implementation, not proved. Model-to-code tie is differential "
+               "(systematic product, exhaustive switch sequences to depth 4/5, sampled beyond). The textual operand sentinel is advisory; "
+               "the sender rule is enforced dynamically. QDom/QXmppMessage::parse taken as exercised, not proved.",
     design_ref="5.11",
     technique="Lean 4 proofs over an XML-child abstraction + model/implementation correspondence on a real QXmppClient",
 )
